@@ -439,3 +439,117 @@ func riMarshalScenario(rng *RNG) string {
 	wg.Wait()
 	return fmt.Sprintf("ri marshal renders=%d panics=%d", n, panics)
 }
+
+// resultChanCases (C03): the failure transition, a refusal and the reader all deliver a call's
+// result without waiting for the caller (a caller may have given up). That needs a result channel
+// that can hold one result — for every kind of call the package can build.
+func resultChanCases() []string {
+	ctx := context.Background()
+	vals := map[string]map[string][]byte{"f": {"q": []byte("v")}}
+	snap, _ := hrpc.NewSnapshot(ctx, "s", "t")
+	calls := map[string]hrpc.Call{}
+	add := func(name string, c hrpc.Call, err error) {
+		if err == nil && c != nil {
+			calls[name] = c
+		}
+	}
+	g, e := hrpc.NewGetStr(ctx, "t", "k")
+	add("Get", g, e)
+	p, e := hrpc.NewPutStr(ctx, "t", "k", vals)
+	add("Put", p, e)
+	d, e := hrpc.NewDelStr(ctx, "t", "k", vals)
+	add("Del", d, e)
+	a, e := hrpc.NewAppStr(ctx, "t", "k", vals)
+	add("App", a, e)
+	i, e := hrpc.NewIncStrSingle(ctx, "t", "k", "f", "q", 1)
+	add("Inc", i, e)
+	s, e := hrpc.NewScanStr(ctx, "t")
+	add("Scan", s, e)
+	sb, e := hrpc.NewSetBalancer(ctx, true)
+	add("SetBalancer", sb, e)
+	add("CreateTable", hrpc.NewCreateTable(ctx, []byte("t"), map[string]map[string]string{"f": nil}), nil)
+	add("DeleteTable", hrpc.NewDeleteTable(ctx, []byte("t")), nil)
+	add("DisableTable", hrpc.NewDisableTable(ctx, []byte("t")), nil)
+	add("EnableTable", hrpc.NewEnableTable(ctx, []byte("t")), nil)
+	lt, e := hrpc.NewListTableNames(ctx)
+	add("ListTableNames", lt, e)
+	mr, e := hrpc.NewMoveRegion(ctx, []byte("r"))
+	add("MoveRegion", mr, e)
+	add("GetProcedureState", hrpc.NewGetProcedureState(ctx, 7), nil)
+	add("Snapshot", snap, nil)
+	if snap != nil {
+		add("SnapshotDone", hrpc.NewSnapshotDone(snap), nil)
+		add("DeleteSnapshot", hrpc.NewDeleteSnapshot(snap), nil)
+		add("RestoreSnapshot", hrpc.NewRestoreSnapshot(snap), nil)
+		add("RestoreSnapshotDone", hrpc.NewRestoreSnapshotDone(snap), nil)
+	}
+	add("ListSnapshots", hrpc.NewListSnapshots(ctx), nil)
+	add("ClusterStatus", hrpc.NewClusterStatus(), nil)
+	var names []string
+	for n := range calls {
+		names = append(names, n)
+	}
+	sort.Strings(names)
+	var out []string
+	for _, n := range names {
+		out = append(out, fmt.Sprintf("cc chan %s cap=%d", n, cap(calls[n].ResultChan())))
+	}
+	return out
+}
+
+// dialCloseScenario (C03 / C20): what happens to a region client that is closed, or whose dial
+// context ends, while its dialer is still connecting — and the dialer then hands out a connection
+// all the same (a proxy dialer that does not watch the context, or the race of the two).
+//
+//	close:  Close() during the dial. The client is closed: Dial reports it, the connection is
+//	        closed, later calls are refused.
+//	ctx:    the dial context ends during the dial. Either the client goes into service with that
+//	        connection, or it is failed and the connection is closed — never failed and left open.
+func dialCloseScenario(mode string) string {
+	started := make(chan struct{}, 1)
+	release := make(chan struct{})
+	v := newVConn()
+	dialer := func(ctx context.Context, network, addr string) (net.Conn, error) {
+		started <- struct{}{}
+		<-release
+		return v, nil
+	}
+	rc := region.NewClient("rs:1", region.RegionClient, 2, 0, "verif", time.Hour, nil, dialer, discardLogger)
+	ctx, cancel := context.WithCancel(context.Background())
+	defer cancel()
+	errc := make(chan error, 1)
+	go func() { errc <- rc.Dial(ctx) }()
+	<-started
+	if mode == "close" {
+		rc.Close()
+	} else {
+		cancel()
+	}
+	time.Sleep(2 * time.Millisecond)
+	close(release)
+	dialErr := "timeout"
+	select {
+	case e := <-errc:
+		dialErr = "nil"
+		if e != nil {
+			dialErr = "err"
+		}
+	case <-time.After(2 * time.Second):
+	}
+	time.Sleep(5 * time.Millisecond)
+	// a call handed over now: refused at once if the client is closed, else it is written (auto conn)
+	g, _ := hrpc.NewGetStr(context.Background(), "t", "k", hrpc.SkipBatch())
+	g.SetRegion(region.NewInfo(1, nil, []byte("t"), []byte("t,,1.x."), nil, nil))
+	qd := make(chan struct{})
+	go func() { rc.QueueRPC(g); close(qd) }()
+	later := "pending"
+	select {
+	case r := <-g.ResultChan():
+		later = errClass(r.Error)
+	case <-time.After(300 * time.Millisecond):
+	}
+	done := region.VerifIsDone(rc)
+	closed := v.Closed()
+	rc.Close()
+	return fmt.Sprintf("cc dialclose %s dial=%s done=%v connclosed=%v later=%s", mode, dialErr, done, closed, later)
+}
